@@ -135,6 +135,13 @@ class SocksParse:
                     raise Mismatch(f"parser unpacks {fmt!r} where the emitter packed "
                                    f"{[o + c for o, c in got]}")
                 return tuple(s.value for s in buf.segs)
+            fields = namedtuple_fields(self.ctx.repo, ap(e.func), self.fi.module)
+            if fields is not None:
+                vals = {fields[i]: self.eval(a, env) for i, a in enumerate(e.args) if i < len(fields)}
+                vals.update({k.arg: self.eval(k.value, env) for k in e.keywords if k.arg})
+                if set(vals) != set(fields):
+                    raise AnalysisError(f"SOCKS parser: {norm(e)} does not fill the record fields {fields}")
+                return tuple(vals[f_] for f_ in fields)
             if last == "inet_ntoa":
                 buf = self.eval(e.args[0], env) if e.args else None
                 if isinstance(buf, Bytes) and len(buf.segs) == 1 and buf.segs[0].code == "4s":
@@ -177,6 +184,41 @@ class SocksParse:
             else:
                 raise AnalysisError(f"SOCKS parser: unsupported statement {type(s).__name__}")
         return None
+
+
+def socks_parser(repo) -> Tuple[FuncInfo, List[str]]:
+    """The function that really parses the SOCKS datagram (the anchored method may delegate to a module-level
+    function or another method) and the names under which callers may see it."""
+    from .c05 import resolve_method_call
+    f = repo.fn("UDPProxyProtocol._parse_socks_datagram")
+    names = [f.name]
+    for _ in range(3):
+        body = [s_ for s_ in f.node.body if not (isinstance(s_, ast.Expr) and isinstance(s_.value, ast.Constant))]
+        if len(body) == 1 and isinstance(body[0], ast.Return) and isinstance(body[0].value, ast.Call):
+            c = body[0].value
+            dparam = msg_param(f)
+            if not (c.args and ap(c.args[0]) == dparam):
+                break
+            nxt = None
+            if isinstance(c.func, ast.Name):
+                cands = [g for g in repo.funcs.get(c.func.id, []) if g.module is f.module and g.cls is None and g.parent_fn is None]
+                nxt = cands[0] if len(cands) == 1 else None
+            else:
+                nxt = resolve_method_call(repo, f, c)
+            if nxt is None:
+                break
+            f = nxt
+            names.append(f.name)
+        else:
+            break
+    return f, names
+
+
+def namedtuple_fields(repo, name: Optional[str], mod) -> Optional[List[str]]:
+    ci = repo.resolve_class(name, mod) if name else None
+    if ci is None or not any(b.split(".")[-1] == "NamedTuple" for b in ci.base_names):
+        return None
+    return [st.target.id for st in ci.node.body if isinstance(st, ast.AnnAssign) and isinstance(st.target, ast.Name)]
 
 
 def emitted_header(ctx) -> Tuple[FuncInfo, List[Seg], ast.AST]:
@@ -238,7 +280,7 @@ def r1(ctx):
     total = sum(s.size for s in segs)
     ctx.ob("C06.R1", "emit: every header field is in network byte order", all(s.order == "!" for s in segs), ctx.w(ser, ret),
            f"orders {[s.order for s in segs]}")
-    pf = repo.fn("UDPProxyProtocol._parse_socks_datagram")
+    pf, _ = socks_parser(repo)
     dparam = msg_param(pf)
     interp = SocksParse(ctx, pf)
     where = pf.where
@@ -321,16 +363,39 @@ def r2(ctx):
             ctx.ob("C06.R2", "datagram_received[OUT]: src_addr is the datagram's source", ap(a.get("src_addr")) == sparam, where)
             dst, dat = a.get("dst_addr"), a.get("data")
             # (dst, data) come from the parsed SOCKS datagram
-            okp, parsed_name = False, None
+            pfn, pnames = socks_parser(repo)
+            rec_fields = None
+            for r_ in [x for x in walk(pfn.node) if isinstance(x, ast.Return) and isinstance(x.value, ast.Call)]:
+                rec_fields = rec_fields or namedtuple_fields(repo, ap(r_.value.func), pfn.module)
+
+            def is_parse_call(v):
+                return isinstance(v, ast.Call) and call_attr(v) in pnames and v.args and ap(v.args[0]) == dparam
+            parsed_names = {st_.path for st_ in stores(dr.node, into_defs=False) if st_.kind == "assign" and "." not in st_.path
+                            and is_parse_call(st_.value) and isinstance(st_.target, ast.Name)}
+            unpacked: Dict[str, int] = {}
             for st in walk(dr.node):
-                if isinstance(st, ast.Assign) and isinstance(st.targets[0], ast.Tuple) and len(st.targets[0].elts) == 2:
-                    t0, t1 = st.targets[0].elts
+                if isinstance(st, ast.Assign) and isinstance(st.targets[0], ast.Tuple):
                     v = st.value
-                    if isinstance(v, ast.Name):
-                        parsed_name = v.id
-                        v = single_assign(dr.node, v.id)
-                    if isinstance(v, ast.Call) and call_attr(v) == "_parse_socks_datagram" and v.args and ap(v.args[0]) == dparam:
-                        okp = ap(t0) == ap(dst) and ap(t1) == ap(dat) and ap(dst) is not None
+                    if is_parse_call(v) or (isinstance(v, ast.Name) and v.id in parsed_names):
+                        for i_, t_ in enumerate(st.targets[0].elts):
+                            if isinstance(t_, ast.Name):
+                                unpacked[t_.id] = i_
+
+            def elem_index(x, depth=0) -> Optional[int]:
+                if isinstance(x, ast.Name):
+                    if x.id in unpacked:
+                        return unpacked[x.id]
+                    v_ = single_assign(dr.node, x.id)
+                    return elem_index(v_, depth + 1) if v_ is not None and depth < 3 else None
+                if isinstance(x, ast.Attribute) and isinstance(x.value, ast.Name) and x.value.id in parsed_names \
+                        and rec_fields and x.attr in rec_fields:
+                    return rec_fields.index(x.attr)
+                if isinstance(x, ast.Subscript) and isinstance(x.value, ast.Name) and x.value.id in parsed_names \
+                        and isinstance(x.slice, ast.Constant) and isinstance(x.slice.value, int):
+                    return x.slice.value
+                return None
+            okp = dst is not None and dat is not None and elem_index(dst) == 0 and elem_index(dat) == 1
+            parsed_name = next(iter(parsed_names)) if len(parsed_names) == 1 else None
             ctx.ob("C06.R2", "datagram_received[OUT]: (dst_addr, data) are the (address, payload) parsed from the SOCKS header",
                    okp, where, f"dst={norm(dst) if dst is not None else None} data={norm(dat) if dat is not None else None}")
             if parsed_name:
@@ -499,8 +564,23 @@ def r2(ctx):
         if r.value is None or (isinstance(r.value, ast.Constant) and r.value.value is None):
             continue
         nret += 1
-        v = ap(r.value)
-        ok = equal_fact(r, {f"{v}.circuit_addr", rparam}, rb.node, ap) is True
+        val = r.value
+        if isinstance(val, ast.Name) and single_assign(rb.node, val.id) is not None:
+            val = single_assign(rb.node, val.id)
+        anchor, v = r, ap(val)
+        # `next((region for region in ... if <filter>), None)`: the filters are the facts of the yielded element
+        if isinstance(val, ast.Call) and ap(val.func) == "next" and val.args:
+            gen = val.args[0]
+            if isinstance(gen, ast.Name) and single_assign(rb.node, gen.id) is not None:
+                gen = single_assign(rb.node, gen.id)
+            dflt = val.args[1] if len(val.args) > 1 else None
+            if not (isinstance(gen, ast.GeneratorExp) and isinstance(gen.elt, ast.Name)
+                    and isinstance(dflt, ast.Constant) and dflt.value is None):
+                raise AnalysisError(f"region_by_circuit_addr: unsupported result {norm(r.value)}")
+            anchor, v = gen.elt, gen.elt.id
+        elif v is None:
+            raise AnalysisError(f"region_by_circuit_addr: unsupported result {norm(r.value)}")
+        ok = equal_fact(anchor, {f"{v}.circuit_addr", rparam}, rb.node, ap) is True
         ctx.ob("C06.R2", "region_by_circuit_addr returns a region only when its circuit_addr equals the argument", ok, ctx.w(rb, r),
                "a datagram could be attributed to another simulator's region")
     ctx.floor("C06.R2", "region_by_circuit_addr region returns", nret, 1)
@@ -677,7 +757,7 @@ def r3(ctx):
     # ---- the ban predicate itself
     vm = repo.fn("MessageDotXML.validate_udp_msg")
     rets = [r for r in walk(vm.node) if isinstance(r, ast.Return)]
-    falsy = [r for r in rets if isinstance(r.value, ast.Constant) and not r.value.value]
+    falsy = [r for r in rets if r.value is None or not (isinstance(r.value, ast.Constant) and bool(r.value.value))]
     ctx.ob("C06.R3", "validate_udp_msg can refuse a message", len(falsy) >= 1, vm.where, "the ban predicate is constantly true")
 
 
@@ -848,7 +928,40 @@ def r4(ctx):
 # ============================================================================ R5 open_circuit verdict
 
 class _Open(Explorer):
-    pass
+    """Path explorer whose feasibility test is an exhaustive truth table over the atomic conditions met so far
+    (so `not a or not b` followed by `a and b`, or a boolean property spelling of either, prune each other)."""
+
+    def __init__(self, repo):
+        super().__init__()
+        self.repo = repo
+
+    def branch(self, test, st: St):
+        from .c05 import facts_exclude
+        out = []
+        for val in (True, False):
+            cons = list(st.data.get("cons", [])) + [(test, val)]
+            if facts_exclude(self.repo, cons, []):
+                continue
+            s2 = st.copy()
+            s2.data["cons"] = cons
+            assume(test, val, s2)
+            out.append((val, s2))
+        return out
+
+    def simple(self, s, st: St):
+        from .c05 import prop_expand
+        from ..core import paths_in
+        super().simple(s, st)
+        written = [sto.path for sto in stores(s, into_defs=False)]
+        keep = []
+        for e, pol in st.data.get("cons", []):
+            mentioned = set()
+            for n in ast.walk(e):
+                x = prop_expand(self.repo, n) if isinstance(n, ast.Attribute) else n
+                mentioned |= paths_in(x)
+            if not any(q == w or q.startswith(w + ".") for q in mentioned for w in written):
+                keep.append((e, pol))
+        st.data["cons"] = keep
 
 
 def r5(ctx):
@@ -881,7 +994,8 @@ def r5(ctx):
     assume(eq, True, st0)
     if isinstance(match.ops[0], ast.NotEq):
         assume(match, False, st0)
-    ex = _Open()
+    ex = _Open(repo)
+    st0.data["cons"] = [(eq, True)]
     blk, _ = _block_of(loop)
     tail = blk[[i for i, s in enumerate(blk) if s is loop][0] + 1:] if blk is not None else []
     n = 0
@@ -911,6 +1025,45 @@ def r5(ctx):
     ctx.assume("calls made between a test and its use do not change the truthiness of the tested attributes")
 
 
+def truth_tested_paths(test) -> List[ast.AST]:
+    """Sub-expressions of a condition whose *truthiness* decides it (through not / and / or)."""
+    if isinstance(test, ast.UnaryOp) and isinstance(test.op, ast.Not):
+        return truth_tested_paths(test.operand)
+    if isinstance(test, ast.BoolOp):
+        return [x for v in test.values for x in truth_tested_paths(v)]
+    return [test]
+
+
+def r6(ctx):
+    repo = ctx.repo
+    ctx.rule("C06.R6", "packet ids are tested with `is None`, never for truthiness: 0 is a legal wire id, None means "
+                       "\"not assigned yet\" (a falsy test re-numbers and re-labels a real packet 0 as injected)")
+    fns = []
+    for cname, mod in (("ProxiedCircuit", None), ("Circuit", BCIRC), ("InterceptingLLUDPProxyProtocol", None)):
+        fns.extend(repo.cls(cname, mod).methods.values())
+    n = 0
+    for f in fns:
+        for node in walk(f.node, into_defs=True):
+            tests = []
+            if isinstance(node, (ast.If, ast.While, ast.IfExp)):
+                tests.append(node.test)
+            elif isinstance(node, ast.Assert):
+                tests.append(node.test)
+            elif isinstance(node, ast.comprehension):
+                tests.extend(node.ifs)
+            for t in tests:
+                for x in truth_tested_paths(t):
+                    nt = is_none_test(x)
+                    if nt and nt[0].endswith(".packet_id"):
+                        n += 1
+                        ctx.ob("C06.R6", f"{f.qual}: `{norm(x)}` tests the packet id for None", True, ctx.w(f, x))
+                    elif (ap(x) or "").endswith(".packet_id"):
+                        n += 1
+                        ctx.ob("C06.R6", f"{f.qual}: `{norm(t)}` tests the packet id for None", False, ctx.w(f, x),
+                               f"truthiness of `{norm(x)}` is tested: a packet whose id is 0 is treated as having no id")
+    ctx.floor("C06.R6", "packet-id presence tests", n, 1)
+
+
 def run(ctx):
     r1(ctx)
     r2(ctx)
@@ -919,6 +1072,7 @@ def run(ctx):
     r3_claim(ctx)
     r4(ctx)
     r5(ctx)
+    r6(ctx)
     ctx.assume("message content integrity is C01/C02's codec; behaviour across sessions/regions at run time is not decided")
     ctx.note("AddonManager.handle_proxied_packet runs before the datagram is parsed and validated (addon hook; "
              "outside the no-addon quantifier)")
